@@ -1,1 +1,3 @@
 import Neutrino.Props.C16
+import Neutrino.Props.C17
+import Neutrino.Props.C18
